@@ -5,6 +5,7 @@ Local Open Scope N_scope.
 
 (* the property's literal numbers are the constants of the checked-out tree *)
 Theorem c08_consts :
+  E131_PREVIEW_DATA_MASK = 2 ^ 7 /\ E131_STREAM_TERMINATED_MASK = 2 ^ 6 /\ VECTOR_E131_DATA = 2 /\
   EXPIRY_INTERVAL_US = 2500000 /\ SACN_MAX_PRIORITY = 200 /\ SACN_MAX_MERGE_SOURCES = 6 /\
   SEQUENCE_DIFF_THRESHOLD_NEG = 20 /\ ARTNET_MAX_MERGE_SOURCES = 2 /\ ARTNET_MERGE_TIMEOUT = 10 /\
   DMX_UNIVERSE_SIZE = 512.
@@ -174,6 +175,24 @@ Theorem c08_text_checker :
      fst (fst (xstep c now keep rx T D p)) = tstep c now T p).
 Proof. exact c08_text_checker_l. Qed.
 Print Assumptions c08_text_checker.
+
+(* sACN, wire level: a framing-layer packet as decoded by E131Inflator (ratified layout) carries
+   preview = bit 7 and stream-terminated = bit 6 of the options byte, whatever the other bits (force
+   synchronisation, reserved) are; the rev-2 layout has neither.  A wire packet is either dropped
+   before the merger (framing vector is not the data vector) or handled exactly as the decoded packet,
+   so c08_sacn_ignore / c08_sacn_terminate / c08_sacn_output apply with p := pkt_of_wire w; in
+   particular a set preview bit is ignored when so configured regardless of every other option bit. *)
+Theorem c08_sacn_wire :
+  (forall w, p_preview (pkt_of_wire w) = negb (w_rev2 w) && N.testbit (w_opts w) 7) /\
+  (forall w, p_term (pkt_of_wire w) = negb (w_rev2 w) && N.testbit (w_opts w) 6) /\
+  (forall c now st w,
+     handle_wire c now st w = (st, OIgnore) \/
+     handle_wire c now st w = handle c now st (pkt_of_wire w)) /\
+  (forall c now st w,
+     w_rev2 w = false -> N.testbit (w_opts w) 7 = true -> c_ignore_preview c = true ->
+     handle_wire c now st w = (st, OIgnore)).
+Proof. exact c08_sacn_wire_l. Qed.
+Print Assumptions c08_sacn_wire.
 
 (* hypotheses are satisfiable / the theorems are not vacuous *)
 Definition ex_pkt (cid prio seq : N) (term : bool) (slots : list N) : pkt :=
